@@ -67,7 +67,7 @@ def _one(args):
 
 
 def run(prop, gen, tier, runs, rule, n_quick, n_thorough, cfgs=('dbg', 'rel'), layouts=1, stat_keys=(),
-        requires=(), extra_check=None, timeout=30, model_steps=400000, technique_note=''):
+        requires=(), extra_check=None, timeout=30, model_steps=400000, technique_note='', post=None):
     chk = vlib.Check(prop, tier)
     n = int(os.environ.get('VERIF_N', '0')) or (n_quick if tier == 'quick' else n_thorough)
     try:
@@ -117,4 +117,6 @@ def run(prop, gen, tier, runs, rule, n_quick, n_thorough, cfgs=('dbg', 'rel'), l
     chk.require('programs', chk.counters.get('programs', 0), n // 2)
     for key, minimum_q, minimum_t in requires:
         chk.require(key, chk.counters.get(key, 0), minimum_q if tier == 'quick' else minimum_t)
+    if post is not None:
+        post(chk, bins, tier)
     return chk.finish()
